@@ -185,6 +185,12 @@ struct Ctx {
     char const* subject{""}; // the running call (for trap attribution)
     std::string cur_case;    // filled lazily by the caller before risky batches (cheap jobs only)
     std::string cur_cls{"general"};
+    struct Recent {
+        char const* subj;
+        std::string cls;
+        mc::Violation* v;
+    };
+    std::vector<Recent> recent;
 
     explicit Ctx(mc::Reporter& rr) : r(rr) { }
 
@@ -194,12 +200,29 @@ struct Ctx {
         ++evals;
         if (!(got == want)) {
             // only the first witness of a (subject, class) needs its case/detail text; the rest is counted
-            auto const it = r.viols.find(std::make_tuple(std::string("C11"), std::string(subj), cls()));
-            if (it != r.viols.end()) {
-                it->second.count += 1;
-            } else {
-                r.violation("C11", subj, cls(), kase(), cat("tetl=", got.str(), " std=", want.str()));
+            // through a small cache (the tree with the known defects produces millions of repeats)
+            auto k = cls();
+            mc::Violation* hit = nullptr;
+            for (auto& e : recent) {
+                if (e.subj == subj && e.cls == k) {
+                    hit = e.v;
+                    break;
+                }
             }
+            if (hit == nullptr) {
+                auto it = r.viols.find(std::make_tuple(std::string("C11"), std::string(subj), k));
+                if (it == r.viols.end()) {
+                    r.violation("C11", subj, k, kase(), cat("tetl=", got.str(), " std=", want.str()));
+                    it = r.viols.find(std::make_tuple(std::string("C11"), std::string(subj), k));
+                    if (it != r.viols.end()) { it->second.count -= 1; } // counted below
+                }
+                if (it != r.viols.end()) {
+                    hit = &it->second; // std::map nodes do not move
+                    if (recent.size() >= 8) { recent.erase(recent.begin()); }
+                    recent.push_back(Recent{subj, k, hit});
+                }
+            }
+            if (hit != nullptr) { hit->count += 1; }
         }
         auto const now = mc::san_hits();
         if (now != san) {
